@@ -333,6 +333,15 @@ def rule_raise(P) -> RuleResult:
                 n += 1
                 e = node.exc.func if isinstance(node.exc, ast.Call) else node.exc
                 name = unparse(e)
+                # `raise make_error(...)`: the class is that of what the helper of the package returns on all its returns
+                if isinstance(node.exc, ast.Call):
+                    d = m.dotted(e)
+                    helper = P.lookup(d) if d and d.split('.')[0] == P.PACKAGE else None
+                    if isinstance(helper, FuncInfo):
+                        made = {unparse(r.value.func) if isinstance(r.value, ast.Call) else unparse(r.value)
+                                for r in ast.walk(helper.node) if isinstance(r, ast.Return) and r.value is not None}
+                        if len(made) == 1:
+                            name = made.pop()
                 construct = f'{fi.fq}:raise {name}'
                 if _exc_family(P, m, name):
                     res.ok({'site': fi.fq, 'raises': name})
